@@ -75,13 +75,13 @@ ASSUMPTIONS = [
     "does not make the imaginary-part test inconclusive",
     "powers with a non-literal exponent are only exercised in child processes (the liveness probe), never in-process",
 ]
-BUDGET = {"quick": 45, "thorough": 400}
-NCASES = {"quick": 12000, "thorough": 120000}
+BUDGET = {"quick": 50, "thorough": 400}
+NCASES = {"quick": 6000, "thorough": 120000}
 CASE_TIMEOUT = 30.0
 EVAL_COUNTER = "cases"
 FLOORS = {
-    "quick": {"sound_accepts": 800, "rejected_truly_complex": 640, "complex_value_held": 1100, "real_must_raise_raised": 800, "real_value_held": 800,
-              "operands_checked": 9000, "guard_operands_held": 800},
+    "quick": {"sound_accepts": 400, "rejected_truly_complex": 320, "complex_value_held": 550, "real_must_raise_raised": 400, "real_value_held": 400,
+              "operands_checked": 4500, "guard_operands_held": 400},
     "thorough": {"sound_accepts": 8000, "rejected_truly_complex": 7000, "complex_value_held": 11000, "real_must_raise_raised": 8500,
                  "real_value_held": 7500, "operands_checked": 90000, "guard_operands_held": 8000},
 }
@@ -926,6 +926,9 @@ def monitor_real(ctx, i, rng, cell, gdim, itype):
 
 
 def case(ctx, i, rng):
+    if i < 0:
+        run_probes(ctx, [PROBE_INPUTS[-1 - i]])
+        return
     cell, gdim = rng.choice(CELLS)
     itype = "interior_facet" if rng.random() < 0.15 else "cell"
     if i % 5 < 3:
@@ -966,8 +969,8 @@ print("DONE", run(sys.argv[1]), flush=True)
 """
 PROBE_INPUTS = ["Indexed-x", "Constant", "Coefficient", "Real"]
 HANG_PROBE = True
-PROBE_AFTER_READY = 20.0  # seconds a child may take after its imports and its control input are done (a normal run needs < 0.1 s)
-PROBE_TOTAL = 75.0  # overall limit; a child that is not READY by then is counted as not started (inconclusive)
+PROBE_AFTER_READY = 15.0  # seconds a child may take after its imports and its control input are done (a normal run needs < 0.1 s)
+PROBE_TOTAL = 50.0  # overall limit; a child that is not READY by then is counted as not started (inconclusive)
 
 
 def _done(out):
@@ -977,12 +980,17 @@ def _done(out):
 def once(ctx):
     if ctx.sub != 0 or not HANG_PROBE:
         return
+    run_probes(ctx, PROBE_INPUTS)
+    ctx.case_index = None
+
+
+def run_probes(ctx, names):
     import select
     import time
 
     env = dict(os.environ)
     live = {}
-    for name in PROBE_INPUTS:
+    for name in names:
         p = subprocess.Popen([sys.executable, "-B", "-c", PROBE, name], env=env, stdout=subprocess.PIPE, stderr=subprocess.DEVNULL)
         os.set_blocking(p.stdout.fileno(), False)
         live[name] = {"p": p, "out": "", "ready": None, "state": None}
@@ -1035,6 +1043,7 @@ def once(ctx):
         ctx.covered("hang_probe", "done")
         if d["state"] == "hung" and not _done(so):
             ctx.count("hang_probe_hung")
+            ctx.case_index = -1 - PROBE_INPUTS.index(name)  # replay: case(ctx, -1-k, rng) runs probe k again
             ctx.violation(
                 f"C23/complex/no-verdict-hang/Power-exponent-{name}",
                 f"do_comparison_check(conditional(lt((2+abs(f))**<{name}>, 1.5), 1, 2)) did not return within {PROBE_AFTER_READY:.0f} s "
